@@ -34,6 +34,8 @@ Atom == [
   G     |-> [s |-> "g<i>&*",       b |-> <<103, 60, 105, 62, 38, 42>>],          \* text with an HTML tag
   Q     |-> [s |-> "q<&",          b |-> <<113, 60, 38>>],                       \* text of the file q
   H     |-> [s |-> "h<&",          b |-> <<104, 60, 38>>],                       \* text of helper macros
+  Rr    |-> [s |-> "r<&",          b |-> <<114, 60, 38>>],                       \* text of the innermost file r
+  Sh    |-> [s |-> "s<&",          b |-> <<115, 60, 38>>],                       \* text of the shared partial s
   D     |-> [s |-> "WRONG",        b |-> <<87, 82, 79, 78, 71>>],                \* decoys
   C     |-> [s |-> "\"<&\\\"'*\"", b |-> <<60, 38, 34, 39, 42>>],                \* string constant  "<&\"'*"
   lb    |-> [s |-> "[",            b |-> <<91>>],
@@ -44,7 +46,7 @@ Atom == [
   spost |-> [s |-> "</script>",    b |-> <<60, 47, 115, 99, 114, 105, 112, 116, 62>>],
   none  |-> [s |-> "",             b |-> <<>>]
 ]
-TextAtoms == {"T", "G", "Q", "H", "D", "lb", "rb", "apre", "apost", "spre", "spost"}
+TextAtoms == {"T", "G", "Q", "H", "Rr", "Sh", "D", "lb", "rb", "apre", "apost", "spre", "spost"}
 \* the Markdown converter fixture of the driver brackets its input
 ConvPre == <<91, 109, 100, 58>>      \* [md:
 ConvPost == <<58, 109, 100, 93>>     \* :md]
@@ -131,6 +133,7 @@ CallN(ns, name, pl) == [n |-> "call", ns |-> ns, name |-> name, pl |-> pl]
 VCallN(name, var, pl) == [n |-> "vcall", ns |-> "", name |-> name, var |-> var, pl |-> pl]
 ImportN(ref, ns, only) == [n |-> "import", ref |-> ref, ns |-> ns, only |-> only]
 ExtendsN(ref) == [n |-> "extends", ref |-> ref]
+PreN(ref) == [n |-> "pre", ref |-> ref]          \* {% _ = render "ref" %}: the file is parsed and run, nothing is shown
 File(path, f, body) == [path |-> path, fmt |-> f, body |-> body]
 ShowLike == {"show", "render", "vrender", "call", "vcall"}
 
@@ -152,6 +155,7 @@ SrcNode(n) ==
     [] n.n = "import"  -> <<"{% import ">> \o (IF n.ns = "" THEN <<>> ELSE <<n.ns, " ">>) \o <<"\"">> \o RefFrags(n.ref) \o <<"\"">>
                             \o (IF n.only = "" THEN <<>> ELSE <<" for ", n.only>>) \o <<" %}">>
     [] n.n = "extends" -> <<"{% extends \"">> \o RefFrags(n.ref) \o <<"\" %}">>
+    [] n.n = "pre"     -> <<"{% _ = render \"">> \o RefFrags(n.ref) \o <<"\" %}">>
 SrcBody(body, i) == IF i > Len(body) THEN <<>> ELSE SrcNode(body[i]) \o SrcBody(body, i + 1)
 SrcFile(f) == [path |-> PathStr(f.path), src |-> SrcBody(f.body, 1)]
 
@@ -220,8 +224,10 @@ RefOut(v) == RefFile(v.fs, FileAt(v.fs, v.main))
 \*   macroTagCtx : inside a macro with an explicit result type the lexer stays in the macro's
 \*                 context after an HTML tag (FALSE = as written: `l.ctx = l.tag.ctx` falls back to the
 \*                 FILE's tag context: Markdown in a Markdown file, HTML elsewhere)
-AsWritten == [renderTest |-> FALSE, macroTagCtx |-> FALSE]
+\* (the tag-context fix is in the tree since caecd73: the code as written has macroTagCtx = TRUE)
+AsWritten == [renderTest |-> FALSE, macroTagCtx |-> TRUE]
 Fixed == [renderTest |-> TRUE, macroTagCtx |-> TRUE]
+BeforeTagFix == [renderTest |-> FALSE, macroTagCtx |-> FALSE]
 OnlyRenderFixed == [renderTest |-> TRUE, macroTagCtx |-> FALSE]
 
 \* ast.Format(ctx): the content contexts are formats; ctx > ContextMarkdown (attribute, ...) is none
@@ -291,32 +297,59 @@ ImplOut(v, V) == ImplFile(v.fs, FileAt(v.fs, v.main), V)
 (* ==================================================================================================
    CASES -> VARIANTS
    ================================================================================================== *)
-\* body item = [k, f]:  T text | G text with a tag | S show constant | R render q.f | V the same through a
+\* body item = [k, f, g]:  T text | G text with a tag | S show constant | R render q.f | V the same through a
 \* variable | K macro declaration (result type f, "" = none) followed by its call
+\* | N render n<g>.f, a file of format f that itself renders r.g (nesting depth 3 below the main file)
+\* | Y render the shared partial /e/s.f (a directory no body is written in), then render q.f by its relative path;
+\*     the main file has rendered /e/s.f before (the partial is shared by two files)
+\* | Z render /e/s.f twice, then q.f by its relative path (the partial is referenced twice from one file)
 MTypes == {""} \cup Types
-ItemsNoK == {[k |-> x, f |-> ""] : x \in {"T", "G", "S"}} \cup {[k |-> x, f |-> f] : x \in {"R", "V"}, f \in Fmts}
-ItemsAll == ItemsNoK \cup {[k |-> "K", f |-> t] : t \in MTypes}
-ItemsRV == {[k |-> x, f |-> f] : x \in {"R", "V"}, f \in Fmts}
+It(k, f, g) == [k |-> k, f |-> f, g |-> g]
+ItemsNoK == {It(x, "", "") : x \in {"T", "G", "S"}} \cup {It(x, f, "") : x \in {"R", "V"}, f \in Fmts}
+ItemsAll == ItemsNoK \cup {It("K", t, "") : t \in MTypes}
+ItemsRV == {It(x, f, "") : x \in {"R", "V"}, f \in Fmts}
+ItemsPlain == {It("T", "", ""), It("S", "", "")}
+ItemsN(F, G) == {It("N", f, g) : f \in F, g \in G}
+ItemsYZ(F) == {It(x, f, "") : x \in {"Y", "Z"}, f \in F}
+Special(it) == it.k \in {"N", "Y", "Z"}
 HasK(body) == \E i \in 1..Len(body) : body[i].k = "K"
-QFmts(body) == {body[i].f : i \in {i \in 1..Len(body) : body[i].k \in {"R", "V"}}}
+HasY(body) == \E i \in 1..Len(body) : body[i].k = "Y"
+Of(body, ks) == {body[i] : i \in {i \in 1..Len(body) : body[i].k \in ks}}
+QFmts(body) == {it.f : it \in Of(body, {"R", "V", "Y", "Z"})}
+SharedDir == <<"e">>
+SRef(f) == AbsRef(P(SharedDir, "s", f))
+NName(it) == "n" \o it.g \o "." \o it.f
 
-\* nodes of a body; qref(f) is how the file q.f is referred to from where the body is written
-ItemNodes(it, i, qref(_)) ==
+\* nodes of a body; fref(name) is how the file `name` of q's directory is referred to from where the body is written
+ItemNodes(it, i, fref(_)) ==
   LET k == ToString(i) IN
   CASE it.k = "T" -> <<TextN("T")>>
     [] it.k = "G" -> <<TextN("G")>>
     [] it.k = "S" -> <<ShowN("C", "text")>>
-    [] it.k = "R" -> <<RenderN(qref(it.f), "text")>>
-    [] it.k = "V" -> <<VRenderN(qref(it.f), "w" \o k, "text")>>
+    [] it.k = "R" -> <<RenderN(fref("q." \o it.f), "text")>>
+    [] it.k = "V" -> <<VRenderN(fref("q." \o it.f), "w" \o k, "text")>>
     [] it.k = "K" -> <<MacroN("M" \o k, TRUE, it.f, <<TextN("H"), ShowN("C", "text")>>), CallN("", "M" \o k, "text")>>
-BodyNodes(body, qref(_)) ==      \* bodies have at most 3 items
-  (IF Len(body) >= 1 THEN ItemNodes(body[1], 1, qref) ELSE <<>>) \o (IF Len(body) >= 2 THEN ItemNodes(body[2], 2, qref) ELSE <<>>)
-  \o (IF Len(body) >= 3 THEN ItemNodes(body[3], 3, qref) ELSE <<>>)
+    [] it.k = "N" -> <<RenderN(fref(NName(it)), "text")>>
+    [] it.k = "Y" -> <<RenderN(SRef(it.f), "text"), RenderN(fref("q." \o it.f), "text")>>
+    [] it.k = "Z" -> <<RenderN(SRef(it.f), "text"), RenderN(SRef(it.f), "text"), RenderN(fref("q." \o it.f), "text")>>
+BodyNodes(body, fref(_)) ==      \* bodies have at most 3 items
+  (IF Len(body) >= 1 THEN ItemNodes(body[1], 1, fref) ELSE <<>>) \o (IF Len(body) >= 2 THEN ItemNodes(body[2], 2, fref) ELSE <<>>)
+  \o (IF Len(body) >= 3 THEN ItemNodes(body[3], 3, fref) ELSE <<>>)
+\* what the main file does first when the body has a Y item: it renders the shared partial(s) itself
+PreNodes(body) == SetToSeq({PreN(SRef(it.f)) : it \in Of(body, {"Y"})})
 
 QBody == <<TextN("Q"), ShowN("C", "text")>>
 DecoyBody == <<TextN("D")>>
-QFiles(body, qdir) == SetToSeq({File(P(qdir, "q", f), f, QBody) : f \in QFmts(body)})
-Decoys(body, dirs) == SetToSeq({File(P(dd, "q", f), f, DecoyBody) : f \in QFmts(body), dd \in dirs})
+RelName(name) == [abs |-> FALSE, up |-> 0, dir |-> <<>>, name |-> name]
+QFiles(body, qdir) ==
+  SetToSeq({File(P(qdir, "q", f), f, QBody) : f \in QFmts(body)}
+           \cup {File([dir |-> qdir, name |-> NName(it)], it.f, <<TextN("Q"), RenderN(RelName("r." \o it.g), "text"), ShowN("C", "text")>>)
+                   : it \in Of(body, {"N"})}
+           \cup {File(P(qdir, "r", it.g), it.g, <<TextN("Rr"), ShowN("C", "text")>>) : it \in Of(body, {"N"})}
+           \cup {File(P(SharedDir, "s", it.f), it.f, <<TextN("Sh"), ShowN("C", "text")>>) : it \in Of(body, {"Y", "Z"})})
+\* decoys: a q file wherever a wrongly resolved relative path could land (for Y also next to the shared partial)
+Decoys(body, dirs) == SetToSeq({File(P(dd, "q", f), f, DecoyBody) : f \in QFmts(body), dd \in dirs}
+                               \cup {File(P(SharedDir, "q", it.f), it.f, DecoyBody) : it \in Of(body, {"Y"})})
 Var(name, main, fs) == [name |-> name, main |-> main, fs |-> fs]
 Host(x) == <<TextN("lb"), x, TextN("rb")>>
 
@@ -342,8 +375,9 @@ MkRef(r, name) == [abs |-> r.abs, up |-> r.up, dir |-> r.dir, name |-> name]
 \* d = [kind, hf, pl, pf, lay, body, imp, clash]
 Variants(d) ==
   LET L == Lay(d.kind, d.lay)
-      qrel(f) == MkRef(L.qref, "q." \o f)                          \* q as written in the partial/imported/extending file
-      qabs(f) == AbsRef(P(L.qd, "q", f))                            \* q as written in a hand-expanded form
+      qrel(nm) == MkRef(L.qref, nm)                                 \* a file of q's directory as written in the partial/imported/extending file
+      qabs(nm) == AbsRef([dir |-> L.qd, name |-> nm])               \* ... as written in a hand-expanded form
+      pre == PreNodes(d.body)
       rel == BodyNodes(d.body, qrel)
       abs == BodyNodes(d.body, qabs)
       qs == QFiles(d.body, L.qd) \o Decoys(d.body, L.decoy)
@@ -353,17 +387,17 @@ Variants(d) ==
         part == P(L.pd, "p", d.pf)
         pref == MkRef(L.pref, part.name)
         pfile == File(part, d.pf, rel)
-        direct == <<File(host, d.hf, Host(RenderN(pref, d.pl))), pfile>> \o qs
+        direct == <<File(host, d.hf, pre \o Host(RenderN(pref, d.pl))), pfile>> \o qs
     IN <<Var("direct", host, direct),
-         Var("viaVar", host, <<File(host, d.hf, Host(VRenderN(pref, "v", d.pl))), pfile>> \o qs),
+         Var("viaVar", host, <<File(host, d.hf, pre \o Host(VRenderN(pref, "v", d.pl))), pfile>> \o qs),
          Var("alone", part, direct)>>
        \o (IF HasK(d.body) THEN <<>>     \* a macro cannot be declared inside a macro: no single-macro expansion
            ELSE <<Var("expanded", host,
-                      <<File(host, d.hf, <<MacroN("R", TRUE, Ty(d.pf), abs)>> \o Host(CallN("", "R", d.pl)))>> \o qs)>>)
+                      <<File(host, d.hf, pre \o <<MacroN("R", TRUE, Ty(d.pf), abs)>> \o Host(CallN("", "R", d.pl)))>> \o qs)>>)
   ELSE IF d.kind = "call" THEN           \* pf = the macro's explicit result type ("" = none)
     LET host == P(<<>>, "index", d.hf) decl == MacroN("M", TRUE, d.pf, rel) IN
-    <<Var("direct", host, <<File(host, d.hf, <<decl>> \o Host(CallN("", "M", d.pl)))>> \o qs),
-      Var("viaVar", host, <<File(host, d.hf, <<decl>> \o Host(VCallN("M", "v", d.pl)))>> \o qs)>>
+    <<Var("direct", host, <<File(host, d.hf, pre \o <<decl>> \o Host(CallN("", "M", d.pl)))>> \o qs),
+      Var("viaVar", host, <<File(host, d.hf, pre \o <<decl>> \o Host(VCallN("M", "v", d.pl)))>> \o qs)>>
   ELSE IF d.kind = "import" THEN
     LET host == P(L.hd, "index", d.hf)
         imp == P(L.pd, "m", d.pf)
@@ -373,11 +407,12 @@ Variants(d) ==
                                    MacroN("J", TRUE, "", <<TextN("D")>>)>>)
         decoy == MacroN("h", FALSE, "", <<TextN("D")>>)             \* the importing file's own h
     IN <<Var("imported", host,
-             <<File(host, d.hf, <<ImportN(MkRef(L.pref, imp.name), ns, IF d.imp = "for" THEN "K" ELSE ""), decoy>>
+             \* (an import must come first: here the shared partial is first met in the imported file)
+             <<File(host, d.hf, <<ImportN(MkRef(L.pref, imp.name), ns, IF d.imp = "for" THEN "K" ELSE ""), decoy>> \o pre
                                 \o Host(CallN(ns, "K", d.pl))), ifile>> \o qs),
          Var("local", host,
              <<File(host, d.hf, <<MacroN("hX", FALSE, Ty(d.pf), <<TextN("H")>>),
-                                  MacroN("K", TRUE, Ty(d.pf), abs \o <<CallN("", "hX", "text")>>), decoy>>
+                                  MacroN("K", TRUE, Ty(d.pf), abs \o <<CallN("", "hX", "text")>>), decoy>> \o pre
                                 \o Host(CallN("", "K", d.pl)))>> \o qs)>>
   ELSE IF d.kind = "extends" THEN        \* hf = format of the extending file, pf = of the layout
     LET child == P(L.hd, "index", d.hf)
@@ -387,9 +422,9 @@ Variants(d) ==
         use == Host(CallN("", "Body", d.pl))
         cfile == File(child, d.hf, <<ExtendsN(MkRef(L.pref, lay.name)), MacroN("h", FALSE, "", <<TextN("H")>>),
                                      MacroN("Body", TRUE, "", rel \o <<CallN("", "h", "text")>>)>>)
-    IN <<Var("extends", child, <<cfile, File(lay, d.pf, clash \o <<decoy>> \o use)>> \o qs),
+    IN <<Var("extends", child, <<cfile, File(lay, d.pf, pre \o clash \o <<decoy>> \o use)>> \o qs),
          Var("expanded", lay,
-             <<File(lay, d.pf, clash \o <<MacroN("hX", FALSE, Ty(d.hf), <<TextN("H")>>),
+             <<File(lay, d.pf, pre \o clash \o <<MacroN("hX", FALSE, Ty(d.hf), <<TextN("H")>>),
                                           MacroN("Body", TRUE, Ty(d.hf), abs \o <<CallN("", "hX", "text")>>), decoy>> \o use)>> \o qs)>>
   ELSE \* "calib": one text file per text atom (pf = atom name)
     <<Var("atom", P(<<>>, "index", "txt"), <<File(P(<<>>, "index", "txt"), "txt", <<TextN(d.pf)>>)>>)>>
